@@ -690,4 +690,332 @@ theorem reaches_leaf {h : Heap} {a b : Id} (hk : h.kids a = []) (hr : Reaches h 
   | refl => rfl
   | step _ x _ hm _ => rw [hk] at hm; cases hm
 
+/-! ### fragment arguments for the moving operations, item assignment and extend -/
+
+theorem insertAll_snd (s : Id) (cs : List Id) : ∀ (h : Heap) (i : Int), (insertAll h s i cs).2 = i + cs.length := by
+  induction cs with
+  | nil => intro h i; simp [insertAll]
+  | cons c cs ih => intro h i; rw [insertAll_cons, ih]; simp; omega
+
+theorem insertAll_kind (s : Id) (cs : List Id) : ∀ (h : Heap) (i : Int), (insertAll h s i cs).1.kind = h.kind := by
+  induction cs with
+  | nil => intro h i; rfl
+  | cons c cs ih => intro h i; rw [insertAll_cons, ih]; rfl
+
+theorem noAlias_insertAll (s : Id) (cs : List Id) : ∀ (h : Heap) (i : Int), NoAlias h → NoAlias (insertAll h s i cs).1 := by
+  induction cs with
+  | nil => intro h i ha; exact ha
+  | cons c cs ih => intro h i ha; rw [insertAll_cons]; exact ih _ _ (noAlias_putAt ha _ _ _)
+
+theorem noAlias_appendAll (s : Id) (cs : List Id) : ∀ (h : Heap), NoAlias h → NoAlias (appendAll h s cs) := by
+  induction cs with
+  | nil => intro h ha; exact ha
+  | cons c cs ih => intro h ha; rw [appendAll_cons]; exact ih _ (noAlias_putAt ha _ _ _)
+
+theorem pop_kids_other {h : Heap} (ha : NoAlias h) (s : Id) (i : Int) (n : Id) (hn : n ≠ s) :
+    (pop h s i).1.kids n = h.kids n := by
+  rcases pop_cases ha s i with he | ⟨j, x, _, _, he⟩ <;> rw [he]
+  exact takeAt_kids_other h s j x n hn
+
+theorem insertRel_frag_eq {h : Heap} (ha : NoAlias h) (off : Nat) (s new ref : Id) (hk : h.kind new = .frag)
+    (hne : new ≠ s) (hit : ∀ it ∈ h.kids new, h.kind it ≠ .frag) :
+    (insertRel off h s new ref).1 =
+      let h1 := (removeChild h s new).1
+      if ref ∈ h1.kids s then setPO (insertAll h1 s (((h1.kids s).idxOf ref + off : Nat) : Int) (h.kids new)).1 s new
+      else h1 := by
+  have ha1 := noAlias_removeChild ha s new
+  have hk1 : (removeChild h s new).1.kind new = .frag := by rw [removeChild_kind ha]; exact hk
+  have hkids : (removeChild h s new).1.kids new = h.kids new := removeChild_kids_other ha s new new hne
+  have hit1 : ∀ it ∈ (removeChild h s new).1.kids new, (removeChild h s new).1.kind it ≠ .frag := by
+    rw [hkids, removeChild_kind ha]; exact hit
+  simp only [insertRel, childList_eq ha1, splices_ne ha1 s new hne]
+  split
+  · simp [insert_frag_eq ha1 s _ new hk1 hit1, hkids]
+  · rfl
+
+theorem replaceChild_frag_eq {h : Heap} (ha : NoAlias h) (s new old : Id) (hk : h.kind new = .frag)
+    (hne : new ≠ s) (hit : ∀ it ∈ h.kids new, h.kind it ≠ .frag) :
+    (replaceChild h s new old).1 =
+      let h1 := (removeChild h s new).1
+      if old ∈ h1.kids s then
+        let h2 := (pop h1 s ((h1.kids s).idxOf old)).1
+        setPO (insertAll h2 s ((h1.kids s).idxOf old) (h.kids new)).1 s new
+      else h1 := by
+  have ha1 := noAlias_removeChild ha s new
+  have ha2 := noAlias_pop ha1 s (((removeChild h s new).1.kids s).idxOf old)
+  have hk2 : (pop (removeChild h s new).1 s (((removeChild h s new).1.kids s).idxOf old)).1.kind new = .frag := by
+    rw [pop_kind ha1, removeChild_kind ha]; exact hk
+  have hkids : (pop (removeChild h s new).1 s (((removeChild h s new).1.kids s).idxOf old)).1.kids new = h.kids new := by
+    rw [pop_kids_other ha1 s _ new hne, removeChild_kids_other ha s new new hne]
+  have hit2 : ∀ it ∈ (pop (removeChild h s new).1 s (((removeChild h s new).1.kids s).idxOf old)).1.kids new,
+      (pop (removeChild h s new).1 s (((removeChild h s new).1.kids s).idxOf old)).1.kind it ≠ .frag := by
+    rw [hkids, pop_kind ha1, removeChild_kind ha]; exact hit
+  simp only [replaceChild, childList_eq ha1, splices_ne ha2 s new hne]
+  split
+  · simp [insert_frag_eq ha2 s _ new hk2 hit2, hkids]
+  · rfl
+
+theorem setItem_frag_eq {h : Heap} (ha : NoAlias h) (s : Id) (i : Int) (c : Id) (hk : h.kind c = .frag)
+    (hne : c ≠ s) (hit : ∀ it ∈ h.kids c, h.kind it ≠ .frag) :
+    setItem h s i c = opPop (insertAll h s i (h.kids c)).1 s (i + (h.kids c).length) := by
+  have hf := foldl_insert_leaf (h.next + 1) s (h.kids c) h i ha hit
+  have hfuel : fuelOf h = h.next + 1 + 1 := rfl
+  simp only [setItem, splices_ne ha s c hne, hk, if_true, Bool.false_eq_true, if_false, hfuel, hf, insertAll_snd]
+
+/-- `append` (any fuel, any argument) touches neither kinds nor the `self` attributes -/
+theorem append_kind_attr : ∀ (fuel : Nat) (h : Heap) (s c : Id),
+    (append fuel h s c).kind = h.kind ∧ (append fuel h s c).attr = h.attr := by
+  intro fuel
+  induction fuel with
+  | zero => intro h s c; exact ⟨rfl, rfl⟩
+  | succ f ih =>
+    intro h s c
+    rw [append]
+    split
+    · have : ∀ (l : List Id) (a : Heap), (l.foldl (fun a it => append f a s it) a).kind = a.kind ∧
+          (l.foldl (fun a it => append f a s it) a).attr = a.attr := by
+        intro l
+        induction l with
+        | nil => intro a; exact ⟨rfl, rfl⟩
+        | cons x xs ihl =>
+          intro a
+          rw [List.foldl_cons]
+          have h1 := ihl (append f a s x)
+          have h2 := ih a s x
+          exact ⟨h1.1.trans h2.1, h1.2.trans h2.2⟩
+      exact this (h.kids c) h
+    · simp only [appendLeaf, setPO, rawAppend]
+      split <;> exact ⟨rfl, rfl⟩
+
+theorem opAppend_kind (h : Heap) (s c : Id) : (opAppend h s c).1.kind = h.kind := by
+  unfold opAppend; split
+  · rfl
+  · exact (append_kind_attr _ h s c).1
+
+theorem noAlias_opAppend {h : Heap} (ha : NoAlias h) (s c : Id) : NoAlias (opAppend h s c).1 := by
+  intro n
+  unfold opAppend; split
+  · exact ha n
+  · rw [(append_kind_attr _ h s c).2]; exact ha n
+
+/-- `extend` over arguments none of which makes the splice loop diverge is the fold of `append` -/
+theorem extend_any_eq (s : Id) (cs : List Id) : ∀ (h : Heap), NoAlias h → (∀ c ∈ cs, h.kind c = .frag → c ≠ s) →
+    extend h s cs = (cs.foldl (fun a c => (opAppend a s c).1) h, none) := by
+  induction cs with
+  | nil => intro h _ _; rfl
+  | cons c cs ih =>
+    intro h ha hk
+    have hsp : splices h s c = false := by
+      by_cases hc : h.kind c = .frag
+      · exact splices_ne ha s c (hk c (by simp) hc)
+      · exact splices_leaf h s c hc
+    have hop : opAppend h s c = ((opAppend h s c).1, none) := by
+      simp [opAppend, hsp]
+    have := ih (opAppend h s c).1 (noAlias_opAppend ha s c)
+      (fun d hd hkd => hk d (by simp [hd]) (by rw [opAppend_kind] at hkd; exact hkd))
+    simp only [extend, List.foldl_cons] at this ⊢
+    rw [hop]
+    exact this
+
+/-- a fragment argument: not the receiver, listed nowhere, its items distinct, detached single nodes -/
+def FragArg (h : Heap) (s c : Id) : Prop :=
+  h.kind c = .frag ∧ c ≠ s ∧ Detached h c ∧ (h.kids c).Nodup ∧ ∀ it ∈ h.kids c, h.kind it ≠ .frag ∧ Detached h it
+
+theorem FragArg.not_self_item {h : Heap} {s c : Id} (hp : FragArg h s c) : c ∉ h.kids c :=
+  fun hm => (hp.2.2.2.2 c hm).1 hp.1
+
+/-- `insertBefore/insertAfter(fragment, ref)` -/
+theorem insertRel_frag_inv {h : Heap} (ha : NoAlias h) (hi : Inv h) (off : Nat) (s new ref : Id) (hp : FragArg h s new) :
+    NoAlias (insertRel off h s new ref).1 ∧ Inv (insertRel off h s new ref).1 := by
+  obtain ⟨hk, hne, hdc, hnd, hit⟩ := hp
+  rw [insertRel_frag_eq ha off s new ref hk hne (fun it hm => (hit it hm).1)]
+  have ha1 := noAlias_removeChild ha s new
+  have hi1 := inv_removeChild ha hi s new
+  simp only
+  split
+  · have := inv_insertAll s (h.kids new) (removeChild h s new).1
+      ((((removeChild h s new).1.kids s).idxOf ref + off : Nat) : Int) ha1 hi1 hnd
+      (fun it hm => detached_removeChild ha s new it (hit it hm).2)
+    exact ⟨noAlias_setPO this.1 s new, inv_setPO this.2 s new
+      (detached_insertAll s _ new _ _ (fun hm => (hit new hm).1 hk) (detached_removeChild ha s new new hdc))⟩
+  · exact ⟨ha1, hi1⟩
+
+theorem insertRel_frag_owned {h : Heap} (ha : NoAlias h) (ho : Owned h) (off : Nat) (s new ref : Id) (hp : FragArg h s new) :
+    Owned (insertRel off h s new ref).1 := by
+  obtain ⟨hk, hne, _, _, hit⟩ := hp
+  rw [insertRel_frag_eq ha off s new ref hk hne (fun it hm => (hit it hm).1)]
+  simp only
+  split
+  · exact owned_setPO (owned_insertAll s _ _ _ (owned_removeChild ha ho s new)) s new
+  · exact owned_removeChild ha ho s new
+
+theorem insertRel_frag_acyclic {h : Heap} (ha : NoAlias h) (hac : Acyclic h) (off : Nat) (s new ref : Id)
+    (hp : FragArg h s new) (hs : ∀ it ∈ h.kids new, ¬ Reaches h it s) : Acyclic (insertRel off h s new ref).1 := by
+  obtain ⟨hk, hne, _, _, hit⟩ := hp
+  rw [insertRel_frag_eq ha off s new ref hk hne (fun it hm => (hit it hm).1)]
+  simp only
+  split
+  · exact acyclic_setPO (acyclic_insertAll s _ _ _ (acyclic_removeChild ha hac s new)
+      (fun it hm hr => hs it hm (reaches_mono (removeChild_kids_sub ha s new) hr))) s new
+  · exact acyclic_removeChild ha hac s new
+
+/-- `replaceChild(fragment, old)` -/
+theorem replaceChild_frag_inv {h : Heap} (ha : NoAlias h) (hi : Inv h) (s new old : Id) (hp : FragArg h s new) :
+    NoAlias (replaceChild h s new old).1 ∧ Inv (replaceChild h s new old).1 := by
+  obtain ⟨hk, hne, hdc, hnd, hit⟩ := hp
+  rw [replaceChild_frag_eq ha s new old hk hne (fun it hm => (hit it hm).1)]
+  have ha1 := noAlias_removeChild ha s new
+  have hi1 := inv_removeChild ha hi s new
+  simp only
+  split
+  · have ha2 := noAlias_pop ha1 s (((removeChild h s new).1.kids s).idxOf old)
+    have hi2 := inv_pop ha1 hi1 s (((removeChild h s new).1.kids s).idxOf old)
+    have := inv_insertAll s (h.kids new) _ (((removeChild h s new).1.kids s).idxOf old) ha2 hi2 hnd
+      (fun it hm => detached_pop ha1 s _ it (detached_removeChild ha s new it (hit it hm).2))
+    exact ⟨noAlias_setPO this.1 s new, inv_setPO this.2 s new
+      (detached_insertAll s _ new _ _ (fun hm => (hit new hm).1 hk)
+        (detached_pop ha1 s _ new (detached_removeChild ha s new new hdc)))⟩
+  · exact ⟨ha1, hi1⟩
+
+theorem replaceChild_frag_owned {h : Heap} (ha : NoAlias h) (ho : Owned h) (s new old : Id) (hp : FragArg h s new) :
+    Owned (replaceChild h s new old).1 := by
+  obtain ⟨hk, hne, _, _, hit⟩ := hp
+  rw [replaceChild_frag_eq ha s new old hk hne (fun it hm => (hit it hm).1)]
+  simp only
+  split
+  · exact owned_setPO (owned_insertAll s _ _ _ (owned_pop (noAlias_removeChild ha s new) (owned_removeChild ha ho s new) _ _)) s new
+  · exact owned_removeChild ha ho s new
+
+theorem replaceChild_frag_acyclic {h : Heap} (ha : NoAlias h) (hac : Acyclic h) (s new old : Id)
+    (hp : FragArg h s new) (hs : ∀ it ∈ h.kids new, ¬ Reaches h it s) : Acyclic (replaceChild h s new old).1 := by
+  obtain ⟨hk, hne, _, _, hit⟩ := hp
+  rw [replaceChild_frag_eq ha s new old hk hne (fun it hm => (hit it hm).1)]
+  have ha1 := noAlias_removeChild ha s new
+  simp only
+  split
+  · exact acyclic_setPO (acyclic_insertAll s _ _ _ (acyclic_pop ha1 (acyclic_removeChild ha hac s new) _ _)
+      (fun it hm hr => hs it hm (reaches_mono (removeChild_kids_sub ha s new) (reaches_mono (pop_kids_sub ha1 s _) hr)))) s new
+  · exact acyclic_removeChild ha hac s new
+
+/-- `node[i] = fragment` -/
+theorem setItem_frag_inv {h : Heap} (ha : NoAlias h) (hi : Inv h) (s : Id) (i : Int) (c : Id) (hp : FragArg h s c) :
+    NoAlias (setItem h s i c).1 ∧ Inv (setItem h s i c).1 := by
+  obtain ⟨hk, hne, _, hnd, hit⟩ := hp
+  rw [setItem_frag_eq ha s i c hk hne (fun it hm => (hit it hm).1), opPop_fst]
+  have := inv_insertAll s (h.kids c) h i ha hi hnd (fun it hm => (hit it hm).2)
+  exact ⟨noAlias_pop this.1 _ _, inv_pop this.1 this.2 _ _⟩
+
+theorem setItem_frag_owned {h : Heap} (ha : NoAlias h) (ho : Owned h) (s : Id) (i : Int) (c : Id) (hp : FragArg h s c) :
+    Owned (setItem h s i c).1 := by
+  obtain ⟨hk, hne, _, _, hit⟩ := hp
+  rw [setItem_frag_eq ha s i c hk hne (fun it hm => (hit it hm).1), opPop_fst]
+  exact owned_pop (noAlias_insertAll s _ h i ha) (owned_insertAll s _ h i ho) _ _
+
+theorem setItem_frag_acyclic {h : Heap} (ha : NoAlias h) (hac : Acyclic h) (s : Id) (i : Int) (c : Id)
+    (hp : FragArg h s c) (hs : ∀ it ∈ h.kids c, ¬ Reaches h it s) : Acyclic (setItem h s i c).1 := by
+  obtain ⟨hk, hne, _, _, hit⟩ := hp
+  rw [setItem_frag_eq ha s i c hk hne (fun it hm => (hit it hm).1), opPop_fst]
+  exact acyclic_pop (noAlias_insertAll s _ h i ha) (acyclic_insertAll s _ h i hac hs) _ _
+
+/-! ### `extend` with arbitrary (single or fragment) items -/
+
+/-- "detached or fragment argument" -/
+def ArgOK (h : Heap) (s c : Id) : Prop := (h.kind c ≠ .frag ∧ Detached h c) ∨ FragArg h s c
+
+/-- the nodes an argument stands for -/
+def itemsOf (h : Heap) (c : Id) : List Id := if h.kind c = .frag then h.kids c else [c]
+
+theorem opAppend_frag_eq {h : Heap} (ha : NoAlias h) (s c : Id) (hp : FragArg h s c) :
+    opAppend h s c = (setPO (appendAll h s (h.kids c)) s c, none) := by
+  obtain ⟨hk, hne, _, _, hit⟩ := hp
+  simp only [opAppend, splices_ne ha s c hne, Bool.false_eq_true, if_false,
+    append_frag_eq ha s c hk (fun it hm => (hit it hm).1)]
+
+theorem opAppend_argOK_inv {h : Heap} (ha : NoAlias h) (hi : Inv h) (s c : Id) (hp : ArgOK h s c) :
+    NoAlias (opAppend h s c).1 ∧ Inv (opAppend h s c).1 := by
+  rcases hp with ⟨hk, hd⟩ | hp
+  · rw [opAppend_leaf ha s c hk]; exact ⟨noAlias_putAt ha _ _ _, inv_putAt hi s _ c hd⟩
+  · rw [opAppend_frag_eq ha s c hp]
+    have := inv_appendAll s (h.kids c) h ha hi hp.2.2.2.1 (fun it hm => (hp.2.2.2.2 it hm).2)
+    exact ⟨noAlias_setPO this.1 s c, inv_setPO this.2 s c (detached_appendAll s _ c h hp.not_self_item hp.2.2.1)⟩
+
+theorem opAppend_argOK_owned {h : Heap} (ha : NoAlias h) (ho : Owned h) (s c : Id) (hp : ArgOK h s c) :
+    Owned (opAppend h s c).1 := by
+  rcases hp with ⟨hk, _⟩ | hp
+  · rw [opAppend_leaf ha s c hk]; exact owned_putAt ho _ _ _
+  · rw [opAppend_frag_eq ha s c hp]; exact owned_setPO (owned_appendAll s _ h ho) s c
+
+theorem opAppend_argOK_acyclic {h : Heap} (ha : NoAlias h) (hac : Acyclic h) (s c : Id) (hp : ArgOK h s c)
+    (hs : ∀ it ∈ itemsOf h c, ¬ Reaches h it s) : Acyclic (opAppend h s c).1 := by
+  rcases hp with ⟨hk, _⟩ | hp
+  · rw [opAppend_leaf ha s c hk]; exact acyclic_putAt hac _ _ _ (hs c (by simp [itemsOf, hk]))
+  · rw [opAppend_frag_eq ha s c hp]
+    exact acyclic_setPO (acyclic_appendAll s _ h hac (fun it hm => hs it (by simp [itemsOf, hp.1, hm]))) s c
+
+/-- every item of an `extend` is a legal argument in the state in which it is appended -/
+def ExtendPre (s : Id) : Heap → List Id → Prop
+  | _, [] => True
+  | h, c :: cs => ArgOK h s c ∧ ExtendPre s (opAppend h s c).1 cs
+
+/-- … and none of them is an ancestor of the receiver -/
+def ExtendSafe (s : Id) : Heap → List Id → Prop
+  | _, [] => True
+  | h, c :: cs => (∀ it ∈ itemsOf h c, ¬ Reaches h it s) ∧ ExtendSafe s (opAppend h s c).1 cs
+
+theorem extendPre_frag_ne (s : Id) (cs : List Id) : ∀ h : Heap, ExtendPre s h cs → ∀ c ∈ cs, h.kind c = .frag → c ≠ s := by
+  induction cs with
+  | nil => intro h _ c hc; cases hc
+  | cons d ds ih =>
+    intro h hp c hc hk
+    rcases List.mem_cons.mp hc with e | hm
+    · subst e
+      rcases hp.1 with ⟨hnk, _⟩ | hf
+      · exact absurd hk hnk
+      · exact hf.2.1
+    · exact ih _ hp.2 c hm (by rw [opAppend_kind]; exact hk)
+
+theorem extend_any_fst {h : Heap} (ha : NoAlias h) (s : Id) (cs : List Id) (hp : ExtendPre s h cs) :
+    (extend h s cs).1 = cs.foldl (fun a c => (opAppend a s c).1) h ∧ (extend h s cs).2 = none := by
+  rw [extend_any_eq s cs h ha (extendPre_frag_ne s cs h hp)]; exact ⟨rfl, rfl⟩
+
+theorem extend_any_inv (s : Id) (cs : List Id) : ∀ h : Heap, NoAlias h → Inv h → ExtendPre s h cs →
+    NoAlias (cs.foldl (fun a c => (opAppend a s c).1) h) ∧ Inv (cs.foldl (fun a c => (opAppend a s c).1) h) := by
+  induction cs with
+  | nil => intro h ha hi _; exact ⟨ha, hi⟩
+  | cons c cs ih =>
+    intro h ha hi hp
+    have := opAppend_argOK_inv ha hi s c hp.1
+    exact ih _ this.1 this.2 hp.2
+
+theorem extend_any_owned (s : Id) (cs : List Id) : ∀ h : Heap, NoAlias h → Inv h → Owned h → ExtendPre s h cs →
+    Owned (cs.foldl (fun a c => (opAppend a s c).1) h) := by
+  induction cs with
+  | nil => intro h _ _ ho _; exact ho
+  | cons c cs ih =>
+    intro h ha hi ho hp
+    have := opAppend_argOK_inv ha hi s c hp.1
+    exact ih _ this.1 this.2 (opAppend_argOK_owned ha ho s c hp.1) hp.2
+
+theorem extend_any_acyclic (s : Id) (cs : List Id) : ∀ h : Heap, NoAlias h → Inv h → Acyclic h → ExtendPre s h cs →
+    ExtendSafe s h cs → Acyclic (cs.foldl (fun a c => (opAppend a s c).1) h) := by
+  induction cs with
+  | nil => intro h _ _ hac _ _; exact hac
+  | cons c cs ih =>
+    intro h ha hi hac hp hs
+    have := opAppend_argOK_inv ha hi s c hp.1
+    exact ih _ this.1 this.2 (opAppend_argOK_acyclic ha hac s c hp.1 hs.1) hp.2 hs.2
+
+theorem flatMap_congr_mem {l : List Id} {f g : Id → List Id} (h : ∀ d ∈ l, f d = g d) : l.flatMap f = l.flatMap g := by
+  induction l with
+  | nil => rfl
+  | cons a l ih => simp [List.flatMap_cons, h a (by simp), ih (fun d hd => h d (by simp [hd]))]
+
+theorem eraseIdx_after_block (l items : List Id) (k : Nat) (hk : k < l.length) :
+    (l.take k ++ items ++ l.drop k).eraseIdx (k + items.length) = l.take k ++ items ++ l.drop (k + 1) := by
+  have hlen : (l.take k ++ items).length = k + items.length := by
+    simp [List.length_take, Nat.min_eq_left (Nat.le_of_lt hk)]
+  rw [List.eraseIdx_append_of_length_le (by omega), hlen, Nat.sub_self]
+  congr 1
+  rw [List.drop_eq_getElem_cons hk]; simp
+
 end PlasVerif.Proofs.Dom
